@@ -178,7 +178,42 @@ def _random_chunk(seeds):
         L = [n * d for n, d in zip(shape, dx)]
         dmax = max(dx)
         drops = []
-        for _ in range(rng.randint(1, 3)):
+        big = sd % 25 == 4
+        if big:
+            # diagonal neighbours: two (three) discs whose bounding boxes overlap although the discs are well
+            # separated -- anything computed per bounding box instead of per cluster mixes them up
+            shape, per = rng.choice([([40, 40], [True, True]), ([40, 44], [False, True])])
+            dim = 2
+            dx = [dx[0], dx[0]]
+            x0 = x0[:2] if len(x0) >= 2 else [x0[0], x0[0]]
+            grid = CartesianGrid([(o, o + n * d) for o, n, d in zip(x0, shape, dx)], shape, periodic=per)
+            L = [n * d for n, d in zip(shape, dx)]
+            dmax = dx[0]
+            for _try in range(200):
+                # cells of one disc lie inside the other's bounding box if a < r (1 + 1/sqrt 2); with the separation
+                # premise this needs radii above 6.3 cells
+                r1 = rng.uniform(6.8, 8.5) * dmax
+                r2 = r1 * rng.uniform(0.9, 1.0)
+                lo_a, hi_a = (r1 + r2 + 2.6 * dmax) / math.sqrt(2), 1.66 * r2
+                if lo_a >= hi_a:
+                    continue
+                a = rng.uniform(lo_a, hi_a)
+                sgn = rng.choice([1, -1])
+                p1 = [rng.uniform(x0[k] + (0 if per[k] else r1 + dmax), x0[k] + L[k] - (0 if per[k] else r1 + dmax)) for k in range(2)]
+                p2 = [p1[0] + a, p1[1] + sgn * a]
+                q = 0.0
+                for k in range(2):
+                    d = abs(p1[k] - p2[k])
+                    if per[k]:
+                        d = d % L[k]
+                        d = min(d, L[k] - d)
+                    q += d * d
+                if math.sqrt(q) < r1 + r2 + 2.5 * dmax:
+                    continue
+                if all(per[k] or (x0[k] + r2 + dmax <= p2[k] <= x0[k] + L[k] - r2 - dmax) for k in range(2)):
+                    drops = [(p1, r1), (p2, r2)]
+                    break
+        for _ in range(rng.randint(1, 3) if not drops else 0):
             for _try in range(30):
                 r = rng.uniform(1.5, 2.6) * dmax
                 if any(per[a] and 2 * r + 2 * dx[a] > L[a] for a in range(dim)):
@@ -247,6 +282,7 @@ def _random_chunk(seeds):
             obs.append({"v": vi, "s": s})
         # independent rendering reference (exact rationals): cells whose centre is inside
         half = []
+        exactvol = []
         for (p, r) in drops:
             best = None
             for d in res:
@@ -256,7 +292,13 @@ def _random_chunk(seeds):
                 if okk and inb:
                     best = d
             half.append(best is not None)
-        out.append({"case": case, "integral": integral, "n_res": len(res), "half": half,
+            # ExactVolume: the droplet reported for this original holds exactly the cells whose centres it covers
+            # (counted here with the grid's own metric; knife-edge cells were excluded above)
+            if best is not None:
+                dv = grid.difference_vector(np.array(p), cc)
+                covered = int(np.count_nonzero(np.linalg.norm(dv, axis=-1) < r))
+                exactvol.append(abs(best.volume - covered * cellvol) <= 1e-9 * max(1.0, covered * cellvol))
+        out.append({"case": case, "integral": integral, "n_res": len(res), "half": half, "exactvol": exactvol, "big": big,
                     "trace": {"mask": [list(map(int, c)) for c in np.argwhere(m)], "obs": obs}})
     return out
 
@@ -282,8 +324,17 @@ def random_emulsions(out: core.Outcome, n: int) -> None:
             fails.append(f"{c['n_res']} droplets returned for {len(c['case']['drops'])} originals")
         if not all(c["half"]):
             fails.append("no returned droplet within half a cell (inside the bounds) of an original")
+        if not all(c["exactvol"]):
+            fails.append("volume of a returned droplet differs from the volume of the cells its original covers")
         if fails:
             out.violation({"random_emulsion": c["case"], "fails": fails})
+            continue
+        nbig = sum(1 for g in groups.values() for x in g if x["big"])
+        if c["big"] and (out.tier == "quick" or nbig >= 12):
+            # validating one 40 x 40 image takes TLC about a minute: thorough tier only, at most 12 (the clauses above
+            # were judged for all of them)
+            out.parts.setdefault("random_emulsions_big_not_validated_by_tlc", 0)
+            out.parts["random_emulsions_big_not_validated_by_tlc"] += 1
             continue
         groups.setdefault((tuple(c["case"]["shape"]), tuple(c["case"]["periodic"])), []).append(c)
     for (shape, per), cs in sorted(groups.items()):
